@@ -385,6 +385,14 @@ def part_parse(ctx, ok, profiles):
             b[16:20] = rng.choice([b"CMYK", b"GRAY", b"RGB ", b"Lab ", b"3CLR"])
             b[0x43] = rng.choice([0, 1, 2, 3, 4, 255])
         lines.append("parse " + (bytes(b).hex() or "-"))
+    # every short length, size field corrected: header only, header + part of the tag count, one tag short
+    for hx_ in (profiles[:2] if profiles else []):
+        full = bytes.fromhex(hx_)
+        for cut in list(range(0, 150)) + [len(full) - 1]:
+            b = bytearray(full[:cut])
+            if len(b) >= 4:
+                b[0:4] = len(b).to_bytes(4, "big")
+            lines.append("parse " + (bytes(b).hex() or "-"))
     # the profiles that ship with the crate
     tp = os.path.join(REPO, "crates/jxl-color/src/icc/test-profiles")
     shipped = []
@@ -400,6 +408,9 @@ def part_parse(ctx, ok, profiles):
         return shipped
     for l, o in zip(lines, impl):
         ctx.case(l, nontrivial=not o.startswith("enum"))
+        if o.startswith("panic"):
+            ctx.violation("with_icc-panics-on-a-damaged-profile", o[:200],
+                          {"line": l, "how": "echo '<line>' | harness/target/debug/c19"}, key="c19:parse-" + o.split()[1][:60] if len(o.split()) > 1 else "c19:parse-panic")
         ctx.count("parse " + " ".join(canon_impl(o).split()[:2]))
     if ok:
         model, rc2, err2 = ctx.run_model("c19", lines)
